@@ -111,12 +111,13 @@ theorem insert_pass_wf_anywhere (before : Bool) (path : Rw.Path) (Γ Γ' : Env) 
       subst hr
       simpa [wfL, wfS] using hws
 
-/-- **static scoping is sound** (call-free, configuration-read-free fragment): if the body is
-    well formed in the static environment `Γ` and the initial state provides what `Γ` promises
-    (a value for every control name, a view of the declared rank into an existing buffer for
-    every buffer name), the run never fails with `Err.scope` — no use of an unbound name, for
-    every data algebra and every input.  `_partial`: calls and configuration reads are not
-    covered (a missing configuration field is reported as `scope` by the semantics). -/
+/-- **static scoping is sound**: if the body (with all its callees) is well formed in the static
+    environment `Γ` and the initial state provides what `Γ` promises (a value for every control
+    name, a view of the declared rank into an existing buffer for every buffer name), the run never
+    fails with `Err.scope` — no use of an unbound name or of a non-existent buffer, at any call
+    depth, for every data algebra and every input.  `_partial`: programs that READ configuration
+    state are not covered (the semantics reports a missing configuration field as `scope`, and
+    which fields exist is a property of the input, not of the program). -/
 theorem wf_noScope_partial (V : Type) [DataAlg V] (ext : String → List V → V) (Γ Γ' : Env)
     (body : List Stmt) (σ : State V) (hA : Agree Γ σ) (hw : wfL Γ body = some Γ')
     (hs : simpleL body = true) : execB ext body σ ≠ .error .scope := by
